@@ -68,7 +68,7 @@ def rand_sigdesc(rng, width=None):
             k = rng.choice([lo, hi, 0, 1, rng.randint(lo, hi)])
             if lo <= k <= hi and k not in keys:
                 keys.append(k)
-        labels = ["On", "Off", "Error", "SNA", "Init", "On"]
+        labels = ["On", "Off", "Error", "SNA", "Init", "On", "", "0", "two words"]     # a description may be empty
         values = [[k, rng.choice(labels)] for k in keys]
     return {"size": size, "signed": signed, "factor": rand_factor(rng), "offset": rand_offset(rng), "values": values}
 
